@@ -556,6 +556,23 @@ fn size_case(ch: &mut Choices<'_>, st: &mut Stats) -> CaseResult {
             }
         }
     }
+    // the verdict is a function of (pattern, limit): asking again in descending order of the
+    // limits - after the pattern has been built under every larger limit on this thread - and
+    // through the settings route must give the same answers
+    for &(limit, ok) in outcomes.iter().rev() {
+        let show = || json!({"scheme": "s: Bytes", "filter": text, "regex_compiled_size_limit": if limit == usize::MAX { json!("default") } else { json!(limit) }, "asked": "again, after larger limits, through ParserSettings"});
+        let settings = if limit == usize::MAX { wirefilter::ParserSettings::default() } else { wirefilter::ParserSettings { regex_compiled_size_limit: limit, ..Default::default() } };
+        let parser = FilterParser::with_settings(scheme, settings);
+        st.eval();
+        let again = parse_with(&parser, &text, &show)?.is_ok();
+        if again != ok {
+            return Err(Fail::new(
+                "size-limit-verdict-depends-on-history",
+                format!("under regex_compiled_size_limit = {limit} the filter was {} when asked first (ascending limits) and {} when asked again after larger limits", if ok { "accepted" } else { "rejected" }, if again { "accepted" } else { "rejected" }),
+                show(),
+            ));
+        }
+    }
     // rejected at L  =>  rejected at every smaller L'
     let mut seen_accept = false;
     for (limit, ok) in &outcomes {
